@@ -1113,7 +1113,247 @@ func (c *c15) genAmpSet(iv *c15inv) []*c15op {
 	return ops
 }
 
+// openCase starts a fresh registry for the current case and prints the CASE line.
+func (c *c15) openCase(ks, ampOn, ksHold bool, extra string) *invpkg.InvoiceRegistry {
+	idb, clk := c.makeDB()
+	notifier := newMockNotifier()
+	// start height 0 with delta 0: the height-based expiry of the watcher
+	// never fires, the harness drives every state change itself.
+	watcher := invpkg.NewInvoiceExpiryWatcher(clk, 0, 0, nil, notifier)
+	cfg := invpkg.RegistryConfig{
+		FinalCltvRejectDelta: c.R,
+		HtlcHoldDuration:     c15Hold * time.Second,
+		HtlcInterceptor:      &invpkg.MockHtlcModifier{},
+		Clock:                clk,
+		AcceptKeySend:        ks,
+		AcceptAMP:            ampOn,
+	}
+	if ksHold {
+		cfg.KeysendHoldTime = 1000 * time.Hour
+	}
+	reg := invpkg.NewRegistry(idb, watcher, &cfg)
+	if err := reg.Start(); err != nil {
+		c.t.Fatalf("start: %v", err)
+	}
+	c.reg, c.clk, c.now = reg, clk, testTime
+	c.hodl = make(chan interface{}, 256)
+	c.hashes = nil
+	c.subs = map[uint64]bool{}
+
+	b := func(x bool) int {
+		if x {
+			return 1
+		}
+		return 0
+	}
+	c.pf("CASE %d store=%s R=%d ks=%d amp=%d kshold=%d hold=%d%s", c.n, c.store, c.R,
+		b(ks), b(ampOn), b(ksHold), c15Hold, extra)
+	return reg
+}
+
+// notifyLine runs one NotifyExitHopHtlc and returns the trace text of the call
+// and its answer (used by the concurrent stream, where the printing is deferred).
+func (c *c15) notifyRaw(o *c15op) (string, string) {
+	pl := &mockPayload{}
+	mpp, ampS, ks := "none", "none", "none"
+	if o.mpp {
+		pl.mpp = record.NewMPP(lnwire.MilliSatoshi(o.mppTotal), o.mppAddr)
+		mpp = fmt.Sprintf("%d/%s", o.mppTotal, c15hx(o.mppAddr[:]))
+	}
+	if o.amp {
+		pl.amp = record.NewAMP(o.share, o.setID, o.index)
+		ampS = fmt.Sprintf("%s/%s/%d", c15hx(o.setID[:]), c15hx(o.share[:]), o.index)
+	}
+	if o.ks != nil {
+		pl.customRecords = record.CustomSet{record.KeySendType: o.ks}
+		ks = c15hx(o.ks)
+	}
+	res := ""
+	func() {
+		defer func() {
+			if r := recover(); r != nil {
+				res = "panic"
+			}
+		}()
+		r, err := c.reg.NotifyExitHopHtlc(
+			o.hash, lnwire.MilliSatoshi(o.amt), o.exp, o.ht,
+			c.ckey(o.key), c.hodl, nil, pl,
+		)
+		switch {
+		case err != nil:
+			res = "err"
+		case r == nil:
+			res = "accept"
+		default:
+			res = c15res(r)
+		}
+	}()
+	args := fmt.Sprintf("h=%s k=%d amt=%d exp=%d ht=%d mpp=%s amp=%s ks=%s path=none tot=0",
+		c15hx(o.hash[:]), o.key, o.amt, o.exp, o.ht, mpp, ampS, ks)
+	return args, res
+}
+
+// settleQuiet waits until the registry's asynchronous work has settled: no due
+// hold timer is outstanding and no hodl message arrived for 20 ms.
+func (c *c15) settleQuiet() {
+	deadline := time.Now().Add(10 * time.Second)
+	next := time.Now().Add(30 * time.Millisecond)
+	for len(c.overdue()) > 0 && time.Now().Before(deadline) {
+		if time.Now().After(next) {
+			c.nudge()
+			next = time.Now().Add(30 * time.Millisecond)
+		}
+		time.Sleep(200 * time.Microsecond)
+	}
+	var got []interface{}
+	for {
+		select {
+		case x := <-c.hodl:
+			got = append(got, x)
+			continue
+		case <-time.After(20 * time.Millisecond):
+		}
+		break
+	}
+	for _, x := range got {
+		c.hodl <- x
+	}
+}
+
+// genConcCase: two goroutines act on the registry at the same time. The
+// spontaneous-payment pre-processing (processKeySend / processAMP incl.
+// AddInvoice) and startHtlcTimer / cancelSingleHtlc run outside the registry
+// lock, so these are the places where calls can interleave. The outcome depends
+// on the schedule: the case is evaluated by the property monitor only.
+//
+//	pnotify <args> => <answer>     one line per concurrent call
+//	pend kind=<scenario>           followed by the hodl messages and dumps
+func (c *c15) genConcCase() {
+	c.n++
+	c.R = []int32{4, 4, 10, 3, 1}[c.pick(5)]
+	c.h0 = 100
+	c.height = 100
+	kind := []string{"keysend", "keysend", "timer-complete", "timer-complete", "timer-settle"}[c.pick(5)]
+	ksHold := c.chance(40)
+	reg := c.openCase(true, false, ksHold, " conc=1")
+	defer func() {
+		c.pf("END")
+		if err := reg.Stop(); err != nil {
+			c.t.Fatalf("stop: %v", err)
+		}
+	}()
+	par := func(ops []*c15op, extra func()) {
+		type ans struct{ args, res string }
+		out := make([]ans, len(ops))
+		start := make(chan struct{})
+		done := make(chan int, len(ops)+1)
+		for i := range ops {
+			go func(i int) {
+				<-start
+				a, r := c.notifyRaw(ops[i])
+				out[i] = ans{a, r}
+				done <- i
+			}(i)
+		}
+		if extra != nil {
+			go func() { <-start; extra(); done <- -1 }()
+		}
+		close(start)
+		n := len(ops)
+		if extra != nil {
+			n++
+		}
+		for i := 0; i < n; i++ {
+			<-done
+		}
+		c.settleQuiet()
+		for i, o := range ops {
+			c.addHash(o.hash)
+			c.pf("pnotify %s => %s", out[i].args, out[i].res)
+		}
+		c.pf("pend kind=%s", kind)
+		c.observe()
+	}
+	switch kind {
+	case "keysend":
+		// two (or three) links deliver keysend htlcs for the same hash at once
+		iv := &c15inv{idx: 0, spont: true}
+		iv.pre = lntypes.Preimage(c.rbytes())
+		iv.hash = iv.pre.Hash()
+		amt := []uint64{1000, 1, 31337}[c.pick(3)]
+		n := 2 + c.pick(2)
+		var ops []*c15op
+		for i := 0; i < n; i++ {
+			o := &c15op{kind: "notify", hash: iv.hash, key: c.newKey(iv), amt: amt, ht: 100}
+			if c.chance(30) {
+				o.amt = amt + uint64(c.pick(3)) - 1
+			}
+			o.exp = c.expiry(100, c.R, 85)
+			o.ks = append([]byte{}, iv.pre[:]...)
+			ops = append(ops, o)
+		}
+		par(ops, nil)
+		if ksHold {
+			c.doSettle(&c15op{kind: "settle", pre: iv.pre})
+		}
+		for _, o := range ops {
+			cp := *o
+			c.doNotify(&cp)
+		}
+	default:
+		// an MPP shard is held; its hold timer fires while the shard that
+		// completes the set (timer-complete) or the hold-invoice settle
+		// (timer-settle) is being processed.
+		iv := c.newInv(0, "regular")
+		iv.feat = "tPm"
+		if kind == "timer-settle" {
+			iv.hodl = true
+			iv.stored = false
+		}
+		iv.bogus = false
+		c.doAddInv(iv)
+		v := iv.val
+		a := v / 2
+		mk := func(amt uint64) *c15op {
+			o := &c15op{kind: "notify", hash: iv.hash, key: c.newKey(iv), amt: amt, ht: 100,
+				mpp: true, mppTotal: v, mppAddr: iv.addr}
+			o.exp = uint32(100 + int64(c.R) + int64(iv.cltv) + 50)
+			return o
+		}
+		first := mk(a)
+		c.doNotify(first)
+		second := mk(v - a)
+		if kind == "timer-settle" {
+			// complete the set first: the invoice is accepted, the first
+			// shard's timer is still armed
+			c.doNotify(second)
+		}
+		c.now = c.now.Add(c15Hold * time.Second)
+		advance := func() { c.clk.SetTime(c.now) }
+		if kind == "timer-complete" {
+			par([]*c15op{second}, advance)
+		} else {
+			var sres string
+			par(nil, func() {
+				advance()
+				sres = c15err(c.reg.SettleHodlInvoice(context.Background(), iv.pre))
+			})
+			c.pf("note settle=%s", sres)
+		}
+		retry := mk(a)
+		c.doNotify(retry)
+		for _, o := range []*c15op{first, second, retry} {
+			cp := *o
+			c.doNotify(&cp)
+		}
+	}
+}
+
 func (c *c15) genCase(tier string) {
+	if c.chance(6) {
+		c.genConcCase()
+		return
+	}
 	c.n++
 	c.R = []int32{4, 4, 10, 3, 40, 1, 0}[c.pick(7)]
 	ks := c.chance(40)
@@ -1311,39 +1551,7 @@ func (c *c15) genCase(tier string) {
 	}
 
 	// ---- run
-	idb, clk := c.makeDB()
-	notifier := newMockNotifier()
-	// start height 0 with delta 0: the height-based expiry of the watcher
-	// never fires, the harness drives every state change itself.
-	watcher := invpkg.NewInvoiceExpiryWatcher(clk, 0, 0, nil, notifier)
-	cfg := invpkg.RegistryConfig{
-		FinalCltvRejectDelta: c.R,
-		HtlcHoldDuration:     c15Hold * time.Second,
-		HtlcInterceptor:      &invpkg.MockHtlcModifier{},
-		Clock:                clk,
-		AcceptKeySend:        ks,
-		AcceptAMP:            ampOn,
-	}
-	if ksHold {
-		cfg.KeysendHoldTime = 1000 * time.Hour
-	}
-	reg := invpkg.NewRegistry(idb, watcher, &cfg)
-	if err := reg.Start(); err != nil {
-		c.t.Fatalf("start: %v", err)
-	}
-	c.reg, c.clk, c.now = reg, clk, testTime
-	c.hodl = make(chan interface{}, 256)
-	c.hashes = nil
-	c.subs = map[uint64]bool{}
-
-	b := func(x bool) int {
-		if x {
-			return 1
-		}
-		return 0
-	}
-	c.pf("CASE %d store=%s R=%d ks=%d amp=%d kshold=%d hold=%d", c.n, c.store, c.R,
-		b(ks), b(ampOn), b(ksHold), c15Hold)
+	reg := c.openCase(ks, ampOn, ksHold, "")
 	for _, iv := range invs {
 		if iv.spont {
 			continue // spontaneous: no invoice is added up front
